@@ -14,6 +14,13 @@ Step(e) ==
      LET bad == IF e.connected /\ e.ca /\ e.cb /\ e.ka # e.kb THEN {"C39.keys-differ-after-handshake"} ELSE {} IN
      /\ ra' = 0 /\ rb' = 0 /\ pka' = e.ka /\ pkb' = e.kb /\ nchecked' = nchecked + 1
      /\ viol' = IF bad = {} THEN viol ELSE Append(viol, Fail(l, bad, e))
+  ELSE IF e.op = "rehs" THEN
+     \* one end handshook again and reconnected while the old connection was up; when that end's handshake went through, the session is
+     \* re-established: both ends that still consider it open must hold one key (the ghost rotation counters start again)
+     LET bad == IF e.hs /\ e.ca /\ e.cb /\ e.ka # e.kb THEN {"C39.keys-differ-after-rehandshake"} ELSE {}
+         fresh == e.hs /\ e.ka = e.kb IN
+     /\ ra' = (IF fresh THEN 0 ELSE ra) /\ rb' = (IF fresh THEN 0 ELSE rb) /\ pka' = e.ka /\ pkb' = e.kb /\ nchecked' = nchecked + 1
+     /\ viol' = IF bad = {} THEN viol ELSE Append(viol, Fail(l, bad, e))
   ELSE
      LET ra2 == IF e.op = "tick" /\ e.n = "a" /\ e.ka # pka THEN ra + 1 ELSE ra
          rb2 == IF e.op = "tick" /\ e.n = "b" /\ e.kb # pkb THEN rb + 1 ELSE rb
